@@ -484,8 +484,17 @@ pub fn grid(tier: Tier) -> Vec<Config> {
         for threads in [1usize, 2, 8] {
             for policy in ["none", "random"] {
                 for port in [11211u16, 24680] {
-                    for (item_size, item_bytes) in [("1KiB", 1024u32), ("1MiB", 1 << 20)] {
+                    for (item_size, item_bytes) in [("1KiB", 1024u32), ("1MiB", 1 << 20), ("2MiB", 2 << 20)] {
                         for conn_limit in [1u32, 3] {
+                            if item_bytes > (1 << 20) {
+                                // a limit above the default: two configurations in the quick tier
+                                let quick_pick = (runtime == "current-thread" && threads == 1 && policy == "none" && port == 11211 && conn_limit == 3)
+                                    || (runtime == "multi-thread" && threads == 2 && policy == "random" && port == 24680 && conn_limit == 1);
+                                if tier == Tier::Thorough || quick_pick {
+                                    v.push(Config { runtime, threads, policy, port, item_size, item_bytes, conn_limit });
+                                }
+                                continue;
+                            }
                             i += 1;
                             if tier == Tier::Quick {
                                 // covering subset: every value of every parameter appears, pairwise mixed
